@@ -185,6 +185,8 @@ CLASS_TEMPLATES = [
 	'class {N}K:\n\tf: int\n\n\tdef __init__(self, p: int) -> None:\n\t\tself.f = p\n\n\tdef m(self, r: int) -> int:\n\t\treturn self.f {0} r\n\n\t@classmethod\n\tdef make(cls, p: int) -> \'{N}K\':\n\t\treturn cls(p {0} 1)\n\n\t@property\n\tdef twice(self) -> int:\n\t\treturn self.f * 2\n\ndef {n}_h(o: {N}K, r: int) -> int:\n\tif r {1} 0:\n\t\treturn o.m(r) + o.twice\n\treturn o.twice\n\ndef {n}_k(a: int) -> {N}K:\n\treturn {N}K(a)\n\ndef {n}({h}) -> int:\n\to = {n}_k(a)\n\tk = {N}K.make(b)\n\treturn {n}_h(o, d) + k.f\n',
 	# inherited class method and property on a derived object
 	'class {N}K:\n\tf: int\n\n\tdef __init__(self, p: int) -> None:\n\t\tself.f = p\n\n\t@property\n\tdef half(self) -> int:\n\t\treturn self.f >> 1 if self.f {1} 0 else 0\n\nclass {N}L({N}K):\n\tg: int\n\n\tdef __init__(self, p: int, q: int) -> None:\n\t\tsuper().__init__(p)\n\t\tself.g = q\n\n\tdef sum(self) -> int:\n\t\treturn self.half {0} self.g\n\ndef {n}({h}) -> int:\n\tl = {N}L(a, b)\n\treturn l.sum() + l.half\n',
+	# protected / private members declared ahead of a public one that is derived from them
+	'class {N}K:\n\t_r: int\n\t__s: int\n\tt: int\n\n\tdef __init__(self, p: int, q: int) -> None:\n\t\tself._r = q\n\t\tself.__s = p {0} 1\n\t\tself.t = self._r {0} self.__s\n\n\tdef m(self) -> int:\n\t\treturn self.t - self._r\n\ndef {n}({h}) -> int:\n\to = {N}K(a, b)\n\treturn o.m() + o.t\n',
 	# constructor that updates a field after storing it, then derives a second field from it
 	'class {N}K:\n\tf: int\n\tg: int\n\n\tdef __init__(self, p: int, q: int) -> None:\n\t\tself.f = p\n\t\tself.f += 1\n\t\tself.g = self.f {0} q\n\ndef {n}({h}) -> int:\n\to = {N}K(a, b)\n\treturn o.g\n',
 	# a field declared after the field that is derived from it
